@@ -165,17 +165,18 @@ CHECKS = {
     "C07": dict(
         category="proof",
         text="Per-argument decision proved in Lean for EVERY declared parameter type and argument type (any tags, object classes, variant lists): if every possible value of the argument is rejected by the parameter, checkArgType reports a mismatch (rejected_reported; false before three fix: commits, witnesses kept as examples). The model (IsMatchType, isCoveredBy, isAcceptVariant, IsMatchUnionType, checkArgType) is tied by the `match` differential stream through a verif hook. "
-             "Receiver lookup, argument counting/binding (required, default, rest, keyword), overload fallback and union receivers are checked end-to-end: generated configurations next to the shipped one, generated programs (ternary unions, instance and class-method calls, nested in if/unless/blocks), a class-level oracle marks calls that CERTAINLY FAIL; each such row (up to the first diagnostic of the program) must be reported.",
+             "Counting and binding: on the model of the binding loop of checkAndPropagateArgs (Model/Bind.lean, tied by the `bind` stream through hooks that declare a configured method and call the real loop on required / defaulted / rest / keyword signatures), a positional call is accepted exactly when it fits (bind_pos_ok_iff), hence too many arguments, a required parameter left without an argument, or an all-rejected argument are each reported (too_many_reported, missing_required_reported, rejected_argument_reported). "
+             "Receiver lookup (C16's lookup stream), overload fallback and union receivers are checked end-to-end: generated configurations next to the shipped one, generated programs (ternary unions, instance and class-method calls, nested in if/unless/blocks), a class-level oracle marks calls that CERTAINLY FAIL; each such row (up to the first diagnostic of the program) must be reported.",
         design="DESIGN.md §4 C07/C08",
-        note="Partial: binding and lookup are not modelled in Lean (end-to-end oracle only). Known finding K28: configured rest parameters do not check their element type. Five fix: commits repaired defects this check found.",
+        note="Partial: the counting/binding theorems cover positional signatures (rest and keyword parameters: stream and end-to-end); overload fallback and union receivers are end-to-end only. Known finding K28: configured rest parameters do not check their element type. Five fix: commits repaired defects this check found.",
         technique="Lean 4 proof (case analysis over the matching model) + differential stream over a hook + end-to-end oracle comparison on generated configurations",
     ),
     "C08": dict(
         category="proof",
-        text="Per-argument decision proved in Lean for EVERY declared parameter type and argument type: if every possible value of the argument (each variant of a union argument) is admitted by the parameter, checkArgType reports nothing (fits_accepted; false before the fix: commit on IsMatchUnionType — `Integer|String` against `Int|String|Symbol`). Model tied by the `match` stream. "
+        text="Per-argument decision proved in Lean for EVERY declared parameter type and argument type: if every possible value of the argument (each variant of a union argument) is admitted by the parameter, checkArgType reports nothing (fits_accepted; false before the fix: commit on IsMatchUnionType — `Integer|String` against `Int|String|Symbol`). Model tied by the `match` stream. On the binding-loop model (tied by the `bind` stream) a call that certainly fits a positional signature — count accepted, every possible value of every argument admitted — is accepted (fitting_call_accepted). "
              "End-to-end: the same generated configurations and programs as C07; the oracle marks calls that CERTAINLY FIT (every receiver class has a declaration accepting count and classes); no such row before the first diagnostic of the program may carry a diagnostic.",
         design="DESIGN.md §4 C07/C08",
-        note="Partial: binding, lookup and overload fallback are end-to-end only. Fix: commits: union-subset acceptance, inherited class methods of configured classes, overloads on union receivers.",
+        note="Partial: rest / keyword binding is covered by the stream and end-to-end, overload fallback and union receivers end-to-end only. Known finding K33 (overloads sharing a keyword name). Fix: commits: union-subset acceptance, inherited class methods of configured classes, overloads on union receivers.",
         technique="Lean 4 proof (case analysis over the matching model) + differential stream over a hook + end-to-end oracle comparison on generated configurations",
     ),
     "C09": dict(
